@@ -1,5 +1,5 @@
 --------------------------- MODULE Trace_FileDeploy ---------------------------
-(* C2S judge for C19.  Record: [id, gens (listing order), oldp, oldc (parallel lists: the device's files), reload ("yes"|"no"|"force"), safe,
+(* C2S judge for C19.  Record: [id, gens (listing order; each with `supports`: does the generator accept this device), oldp, oldc (parallel lists: the device's files), reload ("yes"|"no"|"force"), safe,
    newp, newc, newr (new_files(): paths, contents, reload strings), upp, upc (deploy_cmds files: paths, uploaded text), cmdp (paths with a
    reload command), cmdc (their first line), diffp (paths pc_diff yields),
    fullp, fullc / safep, safec (new_files() and new_files(safe=True) asked of ONE result object, in either order), stable (asking again gives the same)]                                                             *)
@@ -8,8 +8,9 @@ Recs == ndJsonDeserialize(IOEnv.TRACE_FILE)
 VARIABLE i
 ToSet(s) == {s[k] : k \in DOMAIN s}
 Fn(ks, vs) == [p \in ToSet(ks) |-> vs[CHOOSE k \in DOMAIN ks : ks[k] = p]]
-Verdict(r) ==
-  LET plan == Planned(r.gens)
+Verdict(r0) ==
+  LET r == [r0 EXCEPT !.gens = Active(r0.gens)]
+      plan == Planned(r.gens)
       new == Fn(r.newp, r.newc)  newr == Fn(r.newp, r.newr)
       old == Fn(r.oldp, r.oldc)
       up == Fn(r.upp, r.upc)
